@@ -44,3 +44,84 @@ ROWS += [
     ("C02_Q", "C02", "Utilities/_params.py: _Parameter.__set__ skips Need_Update when the assigned value 'is' the stored one or equals it: parameters are stored by reference, so an array updated in place and assigned again is judged unchanged",
      "a per-element density (simu.rho = rho_e) or capacity field modified in place and re-assigned: Get_K_C_M_F keeps the old M / C (entries sum to the old density x measure x thickness) while simu.mass follows the new field"),
 ]
+ROWS += [
+    ("C12_P", "C12", "two sites in FEM/_linalg.py: _KeepsFeAxes now takes the tensor rank (ndim - 2) and the method reducers pass it, but FeArray.__array_function__ still passes the array's ndim: on the dispatched np.sum / np.mean / np.max path "
+     "every negative axis counts as a tensor axis",
+     "np.mean(eps, axis=-2) / np.sum(vec, axis=-3) (function form, negative axis pointing at an FE axis) with a shape coincidence nPg == dim or Ne == nPg == dim: the result stays typed FeArray and the next product broadcasts wrongly"),
+    ("C12_Q", "C12", "FEM/_linalg.py _FeShape picks the operand with the largest Ne x nPg instead of broadcasting the leading shapes: a per-point field (1, nPg, ...) combined with a per-element field (Ne, 1, ...) through matmul / einsum / "
+     "np.linalg.solve gets feShape (Ne, 1) and the full (Ne, nPg, ...) result comes back as a plain ndarray, read as a constant tensor by the next expression",
+     "N_pg @ A_e with N_pg of leading shape (1, nPg) and A_e of leading shape (Ne, 1) (np.matmul, np.einsum, np.linalg.solve likewise): type of the result, and s_e_pg * (N_pg @ A_e)"),
+]
+ROWS += [
+    ("C09_P", "C09", "two sites: _simu.py caches the Gauss coordinates / N_pg / wJ of a group for the load integration on the simulation (cleared by _Update on mesh events), and Mesh.Translate notifies a distinct 'translated' event for which "
+     "_Update keeps the simulation caches: a function-valued load added after a translation is evaluated at the old Gauss positions",
+     "on one simulation: a load on an element group, then mesh.Translate, then a load given as a function of position on the same group (constants and nodal arrays are unaffected; Rotate / Symmetry / coord setter still clear)"),
+    ("C09_Q", "C09", "Mesh.Merge: the duplicate-element removal drops the row sort (np.unique(connect, axis=0)): the two copies of an interface edge / face come from the two meshes with opposite orientation and both stay in the merged mesh",
+     "a mesh produced by Mesh.Merge and a line / surface / pressure load on the common boundary: resultant and moment are doubled"),
+    ("C07_P", "C07", "two sites in FEM/_gauss.py: Gauss._Prism returns its points in the convention with X along the prism axis (the remap onto the gmsh reference prism is removed) and the three prism call sites of Gauss_factory unpack "
+     "'z, x, y', but _Gauss_factory_nPg still unpacks 'x, y, z': prism rules selected by point count have points outside the reference prism",
+     "a prism element type with an integer point count as rule selector (Gauss(PRISM*, 6|8|21), Get_gauss(nPg), Integrate_e(f, nPg)): points outside, the monomial z off by 1/3"),
+    ("C07_Q", "C07", "_GroupElem.Get_weightedJacobian_e_pg reuses the signed Jacobians and returns abs(jacobian * weight): the two tabulated rules with a negative weight (tetrahedron 5 points, prism 8 points) integrate with |w|",
+     "TETRA 5-point / PRISM 8-point rules (reachable through an integer point count only) through the group API: Integrate_e(1, 5) = 15.6 instead of 6 on a 2 x 1 x 3 box"),
+    ("C17_P", "C17", "two sites in Simulations/_phasefield.py: __Calc_psiPlus_e_pg gains a matrixType argument and Result('psiP') evaluates at the 'rigi' points; the helper stores the history array as a side effect, Save_Iter commits the "
+     "(Ne, nPg_rigi) array and the next damage assembly resets a history of another shape to zero",
+     "History solver, an element whose rigi and mass point counts differ (TRI3, TRI6, QUAD8, TETRA4), the order Solve -> Result('psiP') -> Save_Iter: the driving energy is lost on unloading and the damage heals"),
+    ("C17_Q", "C17", "Models/Elastic/_laws.py Get_sqrt_C_S: sqrt_S is computed from self.S and refreshed only when the S setter cleared it (both roots came from one eigen-decomposition of C): after a change of C alone the He split uses "
+     "sqrt_S of the former law",
+     "an Anisotropic material whose stiffness is changed with Set_C(C, update_S=False) or material.C = ..., then the He split (2D / 3D): cP + cM != C"),
+]
+ROWS += [
+    ("C11_P", "C11", "two sites in Models/Elastic/_laws.py: Orthotropic._Behavior stores the shared denominator of the c_ij once per update, and __get_cij_denominator (used by _c11 ... _c12) returns the stored value: Walpole_Decomposition "
+     "reads the c_ij before anything triggers the update, so after a parameter change they mix the new moduli with the old denominator",
+     "an Orthotropic law, a parameter changed, Walpole_Decomposition() as the FIRST read afterwards (reading C first hides it): sum c_i E_i off by 100 % with field parameters, AssertionError with scalars"),
+    ("C11_Q", "C11", "Utilities/_params.py: _Parameter.__get__ returns the stored object instead of a copy: editing the array obtained from mat.E in place changes the stored parameter without Need_Update",
+     "per-element / per-Gauss-point parameter arrays of Isotropic / TransverselyIsotropic / Orthotropic: mat.E[1] *= 0.1 (or E = mat.E; E[...] = ...): mat.E reports the new values while mat.C / mat.S stay the old law"),
+    ("C10_P", "C10", "two sites: FEM/Elems/_beam.py _Compute_P_e_pg returns the block matrix in the beam -> global convention and its five callers in that file apply the transpose, but Simulations/_beam.py add_lineLoad (Euler-Bernoulli "
+     "path) still contracts it as before: distributed loads on an Euler-Bernoulli member are rotated the wrong way",
+     "Euler-Bernoulli members not aligned with x (2D / 3D, also vertical) loaded with add_lineLoad: the response differs from the rotated response of the horizontal member; point loads, K, M and Timoshenko are right"),
+    ("C10_Q", "C10", "Geoms/_geom.py: _Geom.Symmetry rewritten as 'for point in obj.points: point.Symmetry(point, n)': the loop variable shadows the argument, every point is mirrored through itself: geom.Symmetry is a no-op",
+     "a beam problem mirrored with the library's own tools (simu.mesh.Symmetry, beam.line.Symmetry, mirrored yAxis / clamp / loads): the mesh is mirrored but the fiber of the member is not"),
+    ("C15_P", "C15", "two sites in Simulations/_inelastic.py: Save_Iter commits the trial state by writing into the existing committed arrays, and Set_Iter takes the arrays of the returned results as the committed state (Get_results hands "
+     "back a shallow copy): after an in-memory Set_Iter(i) the next Solve + Save_Iter overwrites the arrays stored for iteration i",
+     "InElastic with a history-dependent material, in-memory history, the sequence Set_Iter(i), Solve, Save_Iter: Get_results(i)['state'] and Result('p' / 'Sxx', iter=i) change"),
+    ("C15_Q", "C15", "FEM/_mesh.py: the property Mesh.dict_groupElem returns the dictionary in reversed order: Mesh.Save writes the groups in that order and the loaded mesh has the two main-dimension groups swapped, so its global element "
+     "numbering is permuted",
+     "a mesh with two element types of the main dimension (TRI3 + QUAD4): Mesh.Save / Load_Mesh, and Result('Svm', nodeValues=False, iter=0) of a saved / loaded simulation whose iteration 0 lives on such a mesh"),
+    ("C14_P", "C14", "two sites: Models/Elastic/_laws.py Get_sqrt_C_S no longer reads self.C before looking at its cached roots, and Models/_phasefield.py __Split_He reads material.C after Get_sqrt_C_S: the first assembly after a "
+     "parameter change uses the roots of the former law",
+     "PhaseField with the He split, a state with damage and strain, a change that is not a rescaling of C (the Poisson ratio), the first Get_K_C_M_F('elastic') afterwards"),
+    ("C14_Q", "C14", "Utilities/_observers.py: Observable.__getstate__ drops the observers: a simulation read back with Load_Simu (or copy.deepcopy) holds a model and a mesh with no observers, later parameter / mesh changes no longer raise "
+     "Need_Update",
+     "simu.Save() + Load_Simu() (or deepcopy), then material.E = ... or mesh.coord = ...: the reloaded simulation keeps its pickled K, C, M, F"),
+]
+ROWS += [
+    ("C13_P", "C13", "two sites: Mesh.Translate shifts the coordinates of the groups without clearing their cached matrices (all translation-invariant), and Field.Get_coords reads the Gauss coordinates from a new cache on the group "
+     "(cleared by the coord setter): Gauss coordinates read before a Translate stay stale",
+     "a form with position-dependent coefficients (k(x, y) u.grad.dot(v.grad), c(x, y) u v, f(x, y) v) integrated once, mesh.Translate, integrated again: element arrays, Assemble and WeakForms.Get_K_C_M_F differ from the built-in operators"),
+    ("C13_Q", "C13", "FEM/_linalg.py FeArray.__rmatmul__ (plain constant @ field) rewritten with np.tensordot: right when one operand is a vector; for a matrix constant and a matrix-valued field the result is the transposed product",
+     "Q @ Sym_Grad(u) @ Q.T with Q a plain rotation matrix other than the identity (orthotropic elasticity written in the material frame) against LinearizedElasticity / Simulations.Elastic with the rotated law"),
+    ("C16_P", "C16", "two sites: the default of 'coef' in Models/_utils.py Result_strain_or_stress_field_e goes from sqrt(2) to 1 (all callers pass it), and HyperElastic.Result drops its coef=self.material.coef argument: the shear "
+     "components of a hyperelastic simulation are no longer rescaled",
+     "HyperElastic with a state that has shear: Exy, Sxy, the shear columns of Green-Lagrange / Piola-Kirchhoff are sqrt(2) too large and Svm / Evm are not the von Mises norms (a component still equals the column of its tensor: the reference "
+     "must come from the displacement field or the law)"),
+    ("C16_Q", "C16", "Utilities/_params.py: a parameter can be declared IndependentOfUpdate() (its assignment does not call Need_Update) and _Elastic.thickness is declared so: the observing simulation is no longer notified, the cached K is "
+     "not re-assembled while Result('Wdef') reads the current thickness",
+     "2D elastic simulation, K assembled once, then material.thickness = t: Wdef differs from 1/2 u'Ku by the ratio of the thicknesses"),
+    ("C18_P", "C18", "two sites in FEM/Operators/NonLinear.py: __clenshaw_curtis returns its nodes from 1 to 0 (the rule is symmetric), and the fixed-rule loop of TimeQuadratureStressTensor identifies the end nodes by position: the node s = 1 "
+     "gets state_n and no tangent, the tangent of the end point is dropped: the residual is unchanged, coefK K_e is no longer dR_e / du",
+     "TimeQuadratureStressTensor with the fixed rule (no energyTol) and nPoints >= 2, any law / dimension / scheme: tangent vs derivative of the residual (nPoints = 1 and the adaptive path are right)"),
+    ("C18_Q", "C18", "Simulations/_simu.py: the midpoint branches of _Solver_Evaluate_u_v_a_for_time_scheme / _Solver_Get_K_C_M_coefs_for_time_scheme / _Solver_Update_solutions are folded into the hht ones and read the stored beta, gamma, "
+     "alpha (the defaults happen to be the midpoint values)",
+     "algo = midpoint selected together with non-default beta / gamma / alpha (gamma = 0.6, beta = 0.3025 or alpha = 0.4): the energy-conserving stresses no longer conserve kinetic + stored energy"),
+    ("C19_P", "C19", "two sites in Simulations/_inelastic.py: Construct_local_matrix_system writes the trial state into the existing per-group buffer, and Set_Iter sets the trial dictionary to dict(committed) without copying the arrays: after "
+     "a Set_Iter the next Solve overwrites the committed state in place",
+     "InElastic: Set_Iter(k) then Solve with plastic flow and more than one Newton assembly: the committed accumulated plastic strain moves without Save_Iter, the restarted step differs from its first computation"),
+    ("C19_Q", "C19", "Models/Elastic/_laws.py Get_sqrt_C_S: each root has its own cache (sqrt_S from self.S, refreshed only when the S setter cleared it): after a change of C alone the spectral return mapping is built with a stale C^-1/2",
+     "an Anisotropic law changed with Set_C(C, update_S=False) or law.C = ..., default spectral local solver: not linear elastic below yield, tr(eps_p) != 0 for von Mises, disagrees with solver='newton', tangent is not d sigma / d eps"),
+    ("C20_P", "C20", "two sites in Simulations/_simu.py: the cached reduction map is keyed on the element types of the contributing groups, and the mesh setter no longer clears the simulation's cached values: one simulation walked over "
+     "the parts (simu.mesh = part) reuses the map of the first part (same Ncoords, same types)",
+     "one simulation reused over the parts of a partition: a part with the same number of elements as the first gets K scattered with the first part's connectivity (another size trips an assertion)"),
+    ("C20_Q", "C20", "FEM/_linalg.py FeArray.broadcast, 1-D branch: a coefficient whose length equals both Ne and nPg is read as per-Gauss-point instead of per-element",
+     "a per-element field handed to a part as field[groupElem._globalElements] when the part's element count (owned + ghost) equals the number of Gauss points (4 QUAD4 elements; 3 or 6 TRI6): K / C of the part differ from the global ones on "
+     "the owned rows"),
+]
